@@ -166,6 +166,19 @@ PROPS["C08"] = dict(
     jobs=[job("exhaustive", "^TestExhaustiveSmallSets$", (4, 16), (1, 1), (900, 3000)),
           job("random", "^TestRandomLargerSets$", (2, 16), (600, 6000), (900, 3000))],
 )
+PROPS["C09"] = dict(
+    pkg="c09", level="exploration",
+    technique="model-based testing over generated directed type graphs: least-fix-point inhabitation analysis and reference-name extraction on the abstract model as oracles; termination watched with a write-ahead case file",
+    level_text=("Bounded exploration of type graphs (2-6 types, every reference form, forward/backward/self references, undefined names): Check must report 1302 naming a missing type iff one is missing, "
+                "UsedUserTypes must equal the names in the root text, graphs whose every type is inhabited must be accepted, graphs whose root is uninhabited must be rejected with a recursion error, and on "
+                "accepted graphs Check/Validate/Example must return. Sampled."),
+    level_note="trusted: harness/ref/inhabit.go; graphs whose only uninhabited types sit behind optional/array edges are not judged; self-reference through a {type: \"@T\"} rule is not generated",
+    rule=("graphs: 2-6 named types (object or scalar leaf) with 1-3 properties each; reference forms: required / optional property, @A|@B[|@C], array item, nested object, {type: \"@leaf\"}, allOf parent, "
+          "additionalProperties type, key shortcut; ~17% of graphs reference an undefined name; roots: single reference, alternative list, object of references; both key-optionality settings. "
+          "non-trivial = judged and (the graph has a reference cycle or a missing name) and >=2 types; distinct by the printed spec"),
+    assumptions=["a wall-clock budget of 20 s per call is only used to turn a hang into a recorded case; hitting it is reported with the case (never seen on the pinned tree)"],
+    jobs=[job("graphs", "^TestTypeGraphs$", (4, 16), (2500, 25000), (900, 3000))],
+)
 
 _UNBUILT = "check under construction in this session (see DESIGN.md section 5 for the planned design)"
 NOT_APPLICABLE = [dict(property_id="C%02d" % i, reason=_UNBUILT) for i in range(1, 20) if "C%02d" % i not in PROPS]
